@@ -17,6 +17,10 @@ func Replay(r *lib.Report, raw json.RawMessage) {
 		fmt.Println("HARNESS-ERROR bad replay data:", err)
 		os.Exit(2)
 	}
+	if rd.Kind == "leak" {
+		replayLeak(r, rd)
+		return
+	}
 	fmt.Printf("config %s  (scenario %s, grace A=%ds B=%ds, start offsets A=%ds B=%ds, eager=%v)\n", rd.Cfg.ID, rd.Cfg.Scenario, rd.Cfg.GraceA, rd.Cfg.GraceB, rd.Cfg.OffA, rd.Cfg.OffB, rd.Cfg.Eager)
 	refs := map[string]*Ref{}
 	for _, ro := range rd.Cfg.rollouts() {
